@@ -11,7 +11,7 @@ PROPERTY = "C02"
 LEVEL = "exploration"
 RULE = (
     "BEC2 files with every non-empty ordered subset of {customer-key block (customer key absent/present in its slot), ECC block selector 0..3 with a "
-    "generated P-256 recipient (edge scalars 1,2,n-2,n-1 included), update block with 8-byte code and version 0..255}, content as C01 plus an optional "
+    "generated P-256 recipient (edge scalars 1,2,n-2,n-1 included), update block with 8-byte code and version 0..255}, optionally interleaved with blocks of UNKNOWN tags (carried through byte for byte), content as C01 plus an optional "
     "encrypted component, are written with Bec2File.write_file and read back with every generated non-empty subset of the matching decryptors. Session keys are "
     "CONSTRUCTED per class: random; last 1..16 bytes zero; CRC-16 of the update-block payload (key||version) or of the customer-key-block payload "
     "(10-byte slot||key) with low byte 00 / high byte 00 / both 00 (last two free key bytes solved with the bit-serial reference CRC). Oracle = inverse: "
@@ -24,7 +24,7 @@ ASSUMPTIONS = [
     "the raw bytes of unopened blocks are taken from the written file by the independent header parser",
 ]
 REQUIRED_CLASSES = ["key.ends00", "upd.crc.lo=00", "upd.crc.hi=00", "upd.crc=0000", "cust.crc.lo=00", "cust.crc.hi=00", "blocks>=2", "strict-subset", "ecc",
-                    "enc-component", "route=path", "ecc.edge-scalar", "decoy-decryptors"]
+                    "enc-component", "route=path", "ecc.edge-scalar", "decoy-decryptors", "unknown-tag-block"]
 
 KEY_CLASSES = ["random", "ends00", "upd.lo", "upd.hi", "upd.both", "cust.lo", "cust.hi", "cust.both"]
 
@@ -63,6 +63,9 @@ def _classify(case, rec):
         elif b["kind"] == "cust":
             c = refcrc.crc_bit((b.get("customer_key") or bytes(10)) + key)
             name = "cust"
+        elif b["kind"] == "unknown":
+            rec.cls("unknown-tag-block")
+            continue
         else:
             rec.cls("ecc")
             if b.get("priv") in (1, 2, S.P256_N - 2, S.P256_N - 1):
@@ -79,7 +82,7 @@ def _classify(case, rec):
     if len(blocks) >= 2:
         rec.cls("blocks>=2")
         nt = True
-    openable = [i for i, b in enumerate(blocks) if not (b["kind"] == "ecc" and b.get("priv") is None)]
+    openable = [i for i, b in enumerate(blocks) if b["kind"] != "unknown" and not (b["kind"] == "ecc" and b.get("priv") is None)]
     if set(case["open"]) != set(openable):
         rec.cls("strict-subset")
         nt = True
@@ -168,8 +171,8 @@ def check(case, rec):
 
 @st.composite
 def strat_case(draw, tier="quick"):
-    blocks = draw(S.auth_blocks())
-    openable = [i for i, b in enumerate(blocks) if not (b["kind"] == "ecc" and b.get("priv") is None)]
+    blocks = draw(S.auth_blocks(allow_unknown=True))
+    openable = [i for i, b in enumerate(blocks) if b["kind"] != "unknown" and not (b["kind"] == "ecc" and b.get("priv") is None)]
     if not openable:
         blocks = blocks + [dict(kind="upd", code=draw(st.binary(min_size=8, max_size=8)), version=draw(st.integers(0, 255)))]
         openable = [len(blocks) - 1]
